@@ -422,18 +422,37 @@ class AtomicSaver:
                 do_chmod = False  # respect the umask
 
         fd = os.open(self.part_path, self.open_flags, file_perms)
-        set_cloexec(fd)
-        self.part_file = os.fdopen(fd, self.mode, self.buffering)
+        try:
+            set_cloexec(fd)
+            self.part_file = os.fdopen(fd, self.mode, self.buffering)
 
-        # if default perms are overridden by the user or previous dest_path
-        # chmod away the effects of the umask
-        if do_chmod:
-            try:
+            # if default perms are overridden by the user or previous
+            # dest_path chmod away the effects of the umask
+            if do_chmod:
                 os.chmod(self.part_path, file_perms)
-            except OSError:
-                self.part_file.close()
-                raise
+        except Exception:
+            # the part file exists by now: do not leave it (or its
+            # descriptor) behind, it would block every later save
+            if self.part_file:
+                self._close_quietly()
+            else:
+                os.close(fd)
+            self._rm_part_quietly()
+            raise
         return
+
+    def _close_quietly(self):
+        try:
+            self.part_file.close()
+        except Exception:
+            pass
+
+    def _rm_part_quietly(self):
+        if self.rm_part_on_exc:
+            try:
+                os.unlink(self.part_path)
+            except Exception:
+                pass  # avoid masking original error
 
     def setup(self):
         """Called on context manager entry (the :keyword:`with` statement),
@@ -465,10 +484,16 @@ class AtomicSaver:
 
     def __exit__(self, exc_type, exc_val, exc_tb):
         if self.part_file:
-            # Ensure data is flushed and synced to disk before closing
-            self.part_file.flush()
-            os.fsync(self.part_file.fileno())
-            self.part_file.close()
+            try:
+                # Ensure data is flushed and synced to disk before closing
+                self.part_file.flush()
+                os.fsync(self.part_file.fileno())
+                self.part_file.close()
+            except Exception:
+                # e.g. a full disk reported only now: the save has failed
+                self._close_quietly()
+                self._rm_part_quietly()
+                raise
         if exc_type:
             if self.rm_part_on_exc:
                 try:
